@@ -498,8 +498,11 @@ func (v *View) Register(ctx context.Context, req channel.AdjudicatorReq, subs []
 		return fail("register-unfunded", "channel %x was never funded", id[:4])
 	}
 	if c.Concluded {
+		// a concluded channel cannot be registered again; an adjudicator contract
+		// refuses the call (an honest late-comer may well try: not a rule violation)
+		call.Err = "channel is concluded"
 		l.log(call)
-		return nil
+		return errors.New("ledger: channel is already concluded")
 	}
 	now := l.Clock.Now()
 	type item struct {
